@@ -26,7 +26,9 @@ META = dict(
                 'absent - ends within data_.size() probes, get answers exactly the first entry of that name in insertion order into the current '
                 'table (every growth reverses that order), a walk lists every entry once, and every key/value string of the table lies in a live '
                 'allocation of the string_pool made since the last reset; growth test, sizes, probe start/step and the hash are the expressions '
-                'of the current source (cxx2v Link lemmas). '
+                'of the current source (cxx2v Link lemmas); the multipart end-of-body decision of request::on_content_progress as a function of the '
+                'parser results (served only after eof, anything else 400/413) and the membership of an HTTP connection in the time-out watchdog '
+                '(a connection waiting for request headers is always a member), both tied by rigid statement matches. '
                 'The model is tied to the code by running the extracted model and the real service (sanitizer build) on the same streams and '
                 'comparing reply classes and application callback counters; an independent oracle checks survival, absence of sanitizer '
                 'reports, probe answers, at-most-once delivery and the repaired behaviour (unterminated SCGI block refused, content-less '
@@ -137,6 +139,63 @@ def smap_leaf_tu():
         SMAP_TU_PROBLEMS.append('private/hash_map.h: string_hash::update_state not found in the expected shape')
     vlib.write_if_changed(SMAP_TU, txt)
     return SMAP_TU
+
+
+def mp_end_tie():
+    """rigid statement tie of the multipart loop of request::on_content_progress (src/http_request.cpp) to coq/C02/MpEnd.v: the switch over
+    the parser result (which cases go on, which return 400 / 413, the two tests of the eof case) and the end-of-body decision
+    `if(begin==end && d->read_size==d->content_length && r!=multipart_parser::eof) return 400;` must have exactly the statement structure
+    the model was written for (white space and comments apart); also the order of the parser's result enum.  Returns problems."""
+    try:
+        src = open(os.path.join(vlib.REPO, 'src', 'http_request.cpp')).read()
+        hdr = open(os.path.join(vlib.REPO, 'private', 'multipart_parser.h')).read()
+    except OSError as e:
+        return [str(e)]
+
+    def norm(t):
+        t = re.sub(r'//[^\n]*', '', t)
+        return ''.join(re.sub(r'/\*.*?\*/', '', t, flags=re.S).split())
+    src, hdr = norm(src), norm(hdr)
+    out = []
+    want = [
+        ('initial result', 'multipart_parser::parsing_result_typer=multipart_parser::continue_input;'),
+        ('loop head', 'while(begin!=end){r=d->multipart_parser->consume(begin,end);switch(r){casemultipart_parser::meta_ready:'),
+        ('content_partial case', 'casemultipart_parser::content_partial:{file&f=d->multipart_parser->get_file();if(!size_ok(f,allowed))return413;'),
+        ('content_ready case', 'casemultipart_parser::content_ready:{file&f=d->multipart_parser->last_file();f.data().seekg(0);if(!size_ok(f,allowed))return413;'),
+        ('continue / no_room / eof / error cases', 'casemultipart_parser::continue_input:break;casemultipart_parser::no_room_left:return413;casemultipart_parser::eof:if(begin!=end)return400;'
+         'if(d->read_size!=d->content_length)return400;break;casemultipart_parser::parsing_error:default:return400;}}'),
+        ('end-of-body decision', '}}if(begin==end&&d->read_size==d->content_length&&r!=multipart_parser::eof){return400;}}if(d->read_size==d->content_length){'),
+    ]
+    for name, text in want:
+        if text not in src:
+            out.append('src/http_request.cpp request::on_content_progress: %s no longer has the statement structure of coq/C02/MpEnd.v' % name)
+    if 'typedefenum{parsing_error,meta_ready,content_partial,content_ready,continue_input,eof,no_room_left}parsing_result_type;' not in hdr:
+        out.append('private/multipart_parser.h: parsing_result_type changed')
+    return out
+
+
+def watchdog_tie():
+    """rigid statement tie of http::add_to_watchdog / remove_from_watchdog, their two call sites and the membership test of
+    http_watchdog (src/http_api.cpp) to coq/C02/Wd.v (white space and comments apart)"""
+    try:
+        src = open(os.path.join(vlib.REPO, 'src', 'http_api.cpp')).read()
+    except OSError as e:
+        return [str(e)]
+    src = re.sub(r'//[^\n]*', '', src)
+    src = ''.join(re.sub(r'/\*.*?\*/', '', src, flags=re.S).split())
+    want = [
+        ('add_to_watchdog', 'voidadd_to_watchdog(){if(!in_watchdog_){watchdog_->add(self());in_watchdog_=true;}}'),
+        ('remove_from_watchdog', 'voidremove_from_watchdog(){if(in_watchdog_){watchdog_->remove(self());in_watchdog_=false;}}'),
+        ('constructor: in_watchdog_(false)', 'in_watchdog_(false),'),
+        ('async_read_headers adds the connection', 'update_time();add_to_watchdog();total_read_=0;async_read_some_headers(h);}'),
+        ('on_async_read_complete removes it', 'voidon_async_read_complete(){remove_from_watchdog();}'),
+        ('http_watchdog::add / remove', 'voidadd(weak_http_ptrp){connections_.insert(p);}voidremove(weak_http_ptrp){connections_.erase(p);}'),
+        ('http_watchdog::check kills expired members', 'if(ptr->time_to_die()<now){kill.push_back(ptr);'),
+    ]
+    out = ['src/http_api.cpp: %s no longer has the statement structure of coq/C02/Wd.v' % n for n, t in want if t not in src]
+    if src.count('add_to_watchdog()') != 2 or src.count('remove_from_watchdog()') != 2:
+        out.append('src/http_api.cpp: add_to_watchdog / remove_from_watchdog are called from other places than async_read_headers / on_async_read_complete')
+    return out
 
 
 GEN = {
@@ -276,7 +335,7 @@ def replies_fcgi(b):
 def parse_out(case, out):
     """harness line -> dict(replies=[(class, echo dict)], timeout, closed, calls(list of 7), probes=[bytes], bad)"""
     proto = case.split()[0]
-    res = dict(replies=[], timeout=False, closed=None, calls=None, probes=[], bad=[], stalled=False, many=[])
+    res = dict(replies=[], timeout=False, closed=None, calls=None, probes=[], bad=[], stalled=False, many=[], held=[])
     data = b''
     for t in out.split():
         k, _, v = t.partition('=')
@@ -303,6 +362,9 @@ def parse_out(case, out):
                 res['many'].append((pp,) + tuple(int(x) for x in nums.split(',')))
             except ValueError:
                 res['bad'].append(t[:40])
+        elif k == 'z':
+            a, _, b = v.partition(':')
+            res['held'].append((a == '1', int(b) if b.isdigit() else -1))
         elif k == 'stalled':
             res['stalled'] = True
         elif k == 'restart' or (k == 'probe' and v == '-'):
@@ -497,6 +559,10 @@ def oracle(case, out):
     for m in r['many']:
         if len(m) != 4 or m[2] != m[1] or m[3] != 0:
             return ('simultaneous-connections-not-answered', '%d well-formed %s requests on connections open at the same time: %d answered correctly, %d timed out' % (m[1], m[0], m[2], m[3]) if len(m) == 4 else 'bad m= token')
+    for cl, ms in r['held']:
+        if not cl:
+            return ('http-timeout-connection-not-closed', 'the peer sent a truncated request (or nothing) and kept the socket open: the server did not close the connection '
+                    'within %d ms although http.timeout is %d s (the connection is not in the time-out watchdog?); replies so far %s' % (ms, WD_TIMEOUT, [k for k, _ in r['replies']]))
     if not r['probes']:
         return ('probe-missing', 'no probe result')
     if r['timeout']:
@@ -531,6 +597,13 @@ def oracle(case, out):
         for k, d in r['replies']:
             if k == 'OK:u' and setup == 1 and main == 1 and handled == 1 and int(d[b'CL']) != nbytes:
                 return ('upload-bytes', 'filter saw %d content bytes for declared length %s' % (nbytes, d[b'CL']))
+    if 'Y:mp400' in toks and not has_reset(case):
+        if classes != ['ST400'] or handled != 0:
+            return ('multipart-truncated-body-served', 'a multipart/form-data body without closing delimiter (truncated, declared length = bytes sent) must be answered 400 '
+                    'and must not reach the application; got replies %s, handler calls %d' % (classes, handled))
+    if 'Y:ok' in toks and not has_reset(case):
+        if len(classes) != 1 or not classes[0].startswith('OK:') or handled != 1:
+            return ('multipart-complete-body-refused', 'a complete well-formed multipart/form-data body must be served; got replies %s, handler calls %d' % (classes, handled))
     ev = [t for t in toks if t.startswith('V:')]
     if ev and not has_reset(case):
         if len(r['replies']) != len(ev):
@@ -994,6 +1067,72 @@ def gen_interleaved(ctx, cases):
         off = rng.randrange(1, len(d)) if len(d) > 1 else 1
         other = rng.choice(['http', 'scgi', 'fcgi'])
         cases.append('%s %s P:%s %s P H E X:1' % (proto, S(d[:off]), other, S(d[off:]) if d[off:] else ''))
+
+
+# ------------------------------------------------------------------------------------------- truncated multipart/form-data bodies
+def mp_body(boundary, parts):
+    out = b''
+    for name, filename, ctype, data in parts:
+        out += b'--' + boundary + b'\r\nContent-Disposition: form-data; name="' + name + b'"' + (b'; filename="' + filename + b'"' if filename else b'') + b'\r\n'
+        if ctype:
+            out += b'Content-Type: ' + ctype + b'\r\n'
+        out += b'\r\n' + data + b'\r\n'
+    return out + b'--' + boundary + b'--\r\n'
+
+
+def mp_request(proto, script, ctype, body, cut=None):
+    """a request whose declared length is the size of the (possibly truncated) body actually sent"""
+    cl = b'%d' % len(body)
+    if proto == 'http':
+        data = http_req(b'POST', script, b'HTTP/1.0', [(b'Content-Type', ctype), (b'Content-Length', cl)], body)
+        head = len(data) - len(body)
+    elif proto == 'scgi':
+        data = scgi_enc(scgi_items(script, cl, [(b'CONTENT_TYPE', ctype)]), body)
+        head = len(data) - len(body)
+    else:
+        pts = [0] + ([cut] if cut and 0 < cut < len(body) else []) + [len(body)]
+        data = fbegin() + fcgi_rec(4, 1, fcgi_pairs(fenv(script, cl, [(b'CONTENT_TYPE', ctype)]))) + fcgi_rec(4, 1, b'')
+        data += b''.join(fcgi_rec(5, 1, body[a:b]) for a, b in zip(pts, pts[1:]) if b > a) + fcgi_rec(5, 1, b'')
+        return S(data)
+    if cut and 0 < cut < len(body):
+        return S(data[:head + cut]) + ' ' + S(data[head + cut:])
+    return S(data)
+
+
+def gen_multipart(ctx, cases):
+    """multipart/form-data bodies (request::on_content_progress feeds them to the multipart parser; the end-of-body decision is
+    `last parser result != eof -> 400`): a well-formed body truncated at EVERY offset, the declared length being the truncated size, on all
+    three front ends - in particular right after each boundary line, after --BOUNDARY, --BOUNDARY-, --BOUNDARY--, --BOUNDARY--\\r.
+    Annotation Y:mp400 = the body sent has no closing delimiter: the request must be answered 400 and no handler may run (the partial
+    form must never reach the application); Y:ok = the complete body: served."""
+    rng = ctx.rng
+    bodies = [(b'XyZ', mp_body(b'XyZ', [(b'a', None, None, b'hello'), (b'f', b'x.txt', b'text/plain', b'file data\r\n--Xy not a boundary')])),
+              (b'----b0undary', mp_body(b'----b0undary', [(b'k', None, None, b''), (b'l', None, None, b'v' * 40), (b'm', b'm.bin', b'application/octet-stream', b'\x00\x01--')]))]
+    for bi, (bnd, full) in enumerate(bodies):
+        ctype = b'multipart/form-data; boundary=' + bnd
+        closing = full.rindex(b'--' + bnd + b'--')
+        # offsets right after every delimiter line and inside the closing delimiter
+        marks = set()
+        q = 0
+        while True:
+            q = full.find(b'--' + bnd, q)
+            if q < 0:
+                break
+            for d in range(-2, len(bnd) + 7):
+                marks.add(q + d)
+            q += 1
+        for proto in ('http', 'scgi', 'fcgi'):
+            for t in range(1, len(full) + 1):
+                every = (bi == 0)
+                if not every and t not in marks:
+                    continue
+                body = full[:t]
+                ann = 'Y:ok' if t == len(full) else ('Y:mp400' if t < closing + len(bnd) + 4 else '')
+                scripts = [b'/sync'] + ([b'/async', b'/upm'] if t in marks or t == len(full) else [])
+                for script in scripts:
+                    cases.append('%s %s H E X:1 %s' % (proto, mp_request(proto, script, ctype, body), ann))
+                if t in marks and t > 3 and ann:
+                    cases.append('%s %s H E X:1 %s' % (proto, mp_request(proto, b'/sync', ctype, body, cut=rng.randrange(1, t)), ann))
 
 
 def gen_many(ctx, cases):
@@ -1523,6 +1662,7 @@ def gen_cases(ctx):
     gen_resegmented(ctx, cases)
     gen_env(ctx, cases)        # after the re-segmentation pool is drawn: these are well-formed and large
     gen_many(ctx, cases)
+    gen_multipart(ctx, cases)
     return [' '.join(c.split()) for c in cases]
 
 
@@ -1686,6 +1826,61 @@ def smap_stage(ctx, mexe, env):
     hist['smap:cases'] = len(cases)
 
 
+# ------------------------------------------------------------------------------------------- HTTP time-out watchdog (http.timeout)
+WD_TIMEOUT = 1      # seconds, http.timeout of the dedicated harness processes
+WD_WAIT = 7000      # ms a case waits for the server to close the held connection (check() runs once per second; slack for a loaded machine)
+
+
+def gen_watchdog(ctx):
+    """the peer sends a truncated request - or nothing - and HOLDS the socket open: the connection must be closed by the time-out watchdog
+    (http::add_to_watchdog at the start of every header read, remove_from_watchdog when the request is complete, added again for the next
+    request of a kept-alive connection); probes on other connections are answered meanwhile"""
+    ka = [(b'Connection', b'keep-alive')]
+    g1 = http_req(b'GET', b'/sync/1', b'HTTP/1.1', ka)
+    g2 = http_req(b'POST', b'/async', b'HTTP/1.1', ka + [(b'Content-Length', b'4')], b'abcd')
+    trunc = [b'GET /sync/y HT', b'G', b'GET /sync/y HTTP/1.1\r\nHost: h\r\n', b'POST /sync HTTP/1.1\r\nContent-Length: 10\r\n\r\nabc']
+    z = 'Z%d' % WD_WAIT
+    cases = []
+    for t in trunc[:2]:
+        cases.append('http %s %s P X:1' % (S(t), z))                                   # truncated first request on a fresh connection
+    cases.append('http %s P X:0' % z)                                                   # nothing at all
+    for t in trunc:
+        cases.append('http %s R %s %s P:scgi X:2' % (S(g1), S(t), z))                   # truncated 2nd request after a kept-alive complete one
+    cases.append('http %s R %s R %s %s P X:3' % (S(g1), S(g2), S(trunc[0]), z))        # truncated 3rd request
+    cases.append('http %s R %s X:1' % (S(g1), z))                                       # idle kept-alive connection
+    cases.append('http %s R %s R %s X:2' % (S(g2), S(g1), z))
+    return cases
+
+
+def watchdog_stage(ctx, exe, env):
+    """every case in its own harness process (FE_HTTP_TIMEOUT = 1 s), all at the same time: a handful of cases that each wait a few seconds"""
+    cases = [c for c in (ctx.replay_cases if ctx.replay_cases is not None else gen_watchdog(ctx)) if re.search(r' Z\d+', c)]
+    if not cases:
+        return
+    env = dict(env)
+    env['FE_HTTP_TIMEOUT'] = str(WD_TIMEOUT)
+    t0 = time.time()
+    with concurrent.futures.ThreadPoolExecutor(len(cases)) as ex:
+        outs = list(ex.map(lambda c: run_impl_slice(exe, [c], env), cases))
+    nfail = 0
+    waits = []
+    for c, o in zip(cases, outs):
+        a = o[0] if o else '<not-run>'
+        if a == '<not-run>':
+            ctx.broke('watchdog case not run', c[:200])
+            continue
+        r = oracle(c, a)
+        if r:
+            nfail += 1
+            ctx.fail(r[0], r[1] + '\n  case: %s\n  impl: %s\n  (run with FE_HTTP_TIMEOUT=%d)' % (c[:400], canon_impl(c, a)[:300], WD_TIMEOUT), c)
+        elif not a.startswith('<crash'):
+            waits += [ms for _, ms in parse_out(c, a)['held']]
+    ctx.coverage['http_timeout_cases'] = len(cases)
+    ctx.coverage['http_timeout_failures'] = nfail
+    ctx.coverage['http_timeout_close_ms'] = sorted(waits)
+    ctx.coverage['http_timeout_wall_s'] = round(time.time() - t0, 2)
+
+
 def classify(case, a):
     proto = case.split()[0]
     left = a.split(' | ')[0].split()
@@ -1710,6 +1905,7 @@ def run(ctx):
         'kernel delivers socket bytes in order; a send() of at most 16 KiB on loopback arrives as one readable unit',
         'the server reads a segment before the next one is sent (the harness waits for FIONREAD==0 on the accepted socket)',
         'an HTTP connection reset by the peer may be closed before any application callback (getpeername fails) or processed as the model says: both accepted',
+        'http.timeout watchdog cases: the server closes a held connection within 7 s for http.timeout = 1 s (check() runs once per second)',
         'the harness watchdog calls an event loop stalled when a posted marker has not run 8 s after the case (CPU-starved loop threads are not expected to wait that long)',
         'FastCGI name-value bodies are shorter than 2^32 bytes (theorem hypothesis; the code caps them at 16384+65535+255)',
         'configuration of the harness service: content_length_limit 2 KB, multipart_form_data_limit 4 KB, input_buffer_size 512']
@@ -1726,8 +1922,12 @@ def run(ctx):
         ctx.broke('model extraction/build failed', err)
     for pr in SMAP_TU_PROBLEMS:
         ctx.broke('tie to private/string_map.h broken', pr)
+    for pr in watchdog_tie():
+        ctx.broke('tie to src/http_api.cpp (time-out watchdog membership) broken', pr)
+    for pr in mp_end_tie():
+        ctx.broke('tie to src/http_request.cpp (multipart end-of-body decision) broken', pr)
     cases = ctx.replay_cases if ctx.replay_cases is not None else vlib.corpus_cases('C02') + gen_cases(ctx)
-    cases = [c for c in cases if not c.startswith('smap ')]
+    cases = [c for c in cases if not c.startswith('smap ') and not re.search(r' Z\d+', c)]
     ctx.coverage['rule'] = (
         'case = protocol + byte segments sent on one connection + how the peer ends it (half-close then read to EOF, or abortive close) + probes '
         'on other connections (always one after the case). Generated: truncation/reset at every offset of valid requests; declared-length values '
@@ -1744,7 +1944,10 @@ def run(ctx):
         'names colliding with SCRIPT_NAME / CONTENT_LENGTH / CONTENT_TYPE; a per-case watchdog reports a stuck event loop as event-loop-stalled; '
         'annotated requests delivered in pieces, long kept connections crossing the 16384-byte FastCGI read cache, connections padded so that the cache '
         'capacity is hit exactly at a record boundary, pipelined HTTP requests ending at multiples of the input buffer; 1..300 well-formed requests on '
-        'connections open at the same time (both sides of the 128-event poll array) while a malformed connection is half-way. '
+        'connections open at the same time (both sides of the 128-event poll array) while a malformed connection is half-way; well-formed '
+        'multipart/form-data bodies truncated at every offset (declared length = bytes sent) on all three front ends: a body without closing delimiter '
+        'must get 400 and no handler call; a dedicated group of 10 cases in harness processes with http.timeout = 1 s: truncated first / later request '
+        'or nothing at all with the peer holding the socket open, idle kept-alive connections - the server must close them. '
         'Second stage: private/string_map.h driven directly (string_pool + string_map, ASan+UBSan) by operation sequences: every count 0..300, absent '
         'look-up after every add, duplicates around every growth, clear and refill, random sequences over colliding alphabets; compared with the extracted '
         'model token by token (slot indices, chain order, sizes) and judged by an independent oracle (load factor, counts, look-ups, walk, per-case CPU watchdog). '
@@ -1760,6 +1963,7 @@ def run(ctx):
 
     def smap_bg():
         try:
+            watchdog_stage(ctx, exe, env)
             smap_stage(ctx, mexe, env)
         except Exception as e:      # fail closed
             import traceback
@@ -1770,7 +1974,7 @@ def run(ctx):
     out_i, extra, njobs = run_impl(exe, cases, env, jobs=ctx.scale(8, 10))
     t1 = time.time()
     out_m = None
-    if mexe:
+    if mexe and cases:
         rc_m, out_m, err_m = vlib.run_lines_parallel(mexe, cases, jobs=8)
         if len(out_m) != len(cases):
             ctx.broke('model driver produced %d lines for %d cases' % (len(out_m), len(cases)), err_m[-2000:])
